@@ -88,7 +88,7 @@ def do_replay(prop, path):
     if not ok:
         print(out[-3000:])
         return 2
-    hbin = vf.build_harness(prop.HARNESS)
+    hbin = vf.build_harness(prop.HARNESS, flavour=data.get("harness_flavour", "asan"))
     c = Case("replay", ops)
     a = vf.run_program(hbin, [c])["replay"]
     b = vf.run_program(vf.driver_path(prop.DRIVER), [c])["replay"]
@@ -195,6 +195,28 @@ def main():
             diffs += d2
             tier_run = "quick+search"
 
+    # thorough tier: the same cases against the library compiled with the flags it ships with (gcc -O2, builtin
+    # swaps) and without the builtin swaps - the sanitizer build is not the only build the properties are about
+    flavours_run = []
+    if args.tier == "thorough" and hbin and driver_ok:
+        for fl in getattr(prop, "FLAVOURS", ["ship", "noswap"]):
+            try:
+                hb2 = vf.build_harness(prop.HARNESS, flavour=fl)
+            except vf.BuildError as e:
+                problems.append({"what": "correspondence harness (%s flags) does not build" % fl, "errors": [str(e)[-1500:]]})
+                continue
+            impl2 = vf.run_sharded(hb2, cases)
+            nd = 0
+            for c in cases:
+                d = vf.compare_case(impl2.get(c.cid, ["<no output>"]), model.get(c.cid, ["<no output>"]))
+                if d:
+                    d["case"] = c
+                    d["flavour"] = fl
+                    d["hbin"] = hb2
+                    diffs.append(d)
+                    nd += 1
+            flavours_run.append({"flavour": fl, "flags": " ".join(vf.FLAVOURS[fl]), "cases": len(cases), "differences": nd})
+
     spec_diffs = [d for d in diffs if d["kind"] == "spec"]
     model_diffs = [d for d in diffs if d["kind"] == "model"]
     known = vf.load_known(pid)
@@ -210,8 +232,9 @@ def main():
         seen_sig.add(sig)
         if reported >= 5:
             break
-        small = vf.shrink(c, hbin, vf.driver_path(prop.DRIVER), keep_prefix=getattr(prop, "KEEP_PREFIX", 0))
-        a = vf.run_program(hbin, [small])[small.cid]
+        hb = d.get("hbin", hbin)
+        small = vf.shrink(c, hb, vf.driver_path(prop.DRIVER), keep_prefix=getattr(prop, "KEEP_PREFIX", 0))
+        a = vf.run_program(hb, [small])[small.cid]
         b = vf.run_program(vf.driver_path(prop.DRIVER), [small])[small.cid]
         dd = vf.compare_case(a, b) or d
         # what a `known:` pattern is matched against: the shrunk operations and, behind " => ", what the
@@ -223,7 +246,7 @@ def main():
             continue
         path = write_replay(pid, seed, reported, {
             "property": pid, "kind": "implementation contradicts the property on a concrete input",
-            "ops": small.ops, "first_difference_at_op": dd.get("op_index"),
+            "ops": small.ops, "first_difference_at_op": dd.get("op_index"), "harness_flavour": d.get("flavour", "asan"),
             "implementation": a, "model_and_spec": b,
             "contradicts": getattr(prop, "theorem_for", lambda d: "Ufw.Props.%s" % pid)(dd),
             "replay_cmd": "python3 tools/check.py %s --replay <this file>" % pid})
@@ -271,7 +294,7 @@ def main():
         "op_histogram": dict(hist_ops.most_common(60)), "result_histogram": dict(hist_res.most_common(60)),
         "case_tags": dict(collections.Counter(t for c in cases for t in c.tags)),
         "tier_run": tier_run, "spec_level_differences": len(spec_diffs), "model_level_differences": len(model_diffs),
-        "broken_obligations": problems, "leanchecker": rechecked,
+        "broken_obligations": problems, "leanchecker": rechecked, "other_build_flavours": flavours_run,
     }
     vf.write_evidence(pid, args.tier, seed, coverage, time.time() - t0, len(violations), prop.ASSUMPTIONS)
 
